@@ -81,26 +81,26 @@ Section LogCalc.
 Variable P : nat -> Prop.
 
 Definition Lx (s s' : state) : Prop :=
-  exists l, log s' = l ++ log s /\ forall c f b, In (LFrame c f b) l -> P c.
+  exists l, log s' = l ++ log s /\ forall c f b tx, In (LFrame c f b tx) l -> P c.
 
 Lemma Lx_refl s : Lx s s.
-Proof. exists []. split; [reflexivity|]. intros c f b []. Qed.
+Proof. exists []. split; [reflexivity|]. intros c f b tx []. Qed.
 
 Lemma Lx_trans s1 s2 s3 : Lx s1 s2 -> Lx s2 s3 -> Lx s1 s3.
 Proof.
   intros [l1 [E1 H1]] [l2 [E2 H2]]. exists (l2 ++ l1). split.
   - rewrite E2, E1. apply app_assoc.
-  - intros c f b Hin. apply in_app_or in Hin. destruct Hin as [Hin|Hin]; eauto.
+  - intros c f b tx Hin. apply in_app_or in Hin. destruct Hin as [Hin|Hin]; eauto.
 Qed.
 
 Lemma Lx_same s s' : log s' = log s -> Lx s s'.
-Proof. intros H. exists []. split; [exact H|]. intros c f b []. Qed.
+Proof. intros H. exists []. split; [exact H|]. intros c f b tx []. Qed.
 
 Lemma Lx_cons s s' e :
-  log s' = e :: log s -> (forall c f b, e = LFrame c f b -> P c) -> Lx s s'.
+  log s' = e :: log s -> (forall c f b tx, e = LFrame c f b tx -> P c) -> Lx s s'.
 Proof.
   intros H He. exists [e]. split; [exact H|].
-  intros c f b [Hin|[]]. eapply He. exact Hin.
+  intros c f b tx [Hin|[]]. eapply He. exact Hin.
 Qed.
 
 Definition LxM {A} (m : M A) : Prop :=
@@ -142,18 +142,18 @@ Proof. intros s. apply Lx_same; reflexivity. Qed.
 
 Lemma LxM_commit_chan : LxM commit_chan.
 Proof.
-  intros s. unfold wp, commit_chan. eapply Lx_cons; [reflexivity|]. intros c f b H. discriminate.
+  intros s. unfold wp, commit_chan. eapply Lx_cons; [reflexivity|]. intros c f b tx H. discriminate.
 Qed.
 
 Lemma LxM_commit_usage : LxM commit_usage.
 Proof.
-  intros s. unfold wp, commit_usage. eapply Lx_cons; [reflexivity|]. intros c f b H. discriminate.
+  intros s. unfold wp, commit_usage. eapply Lx_cons; [reflexivity|]. intros c f b tx H. discriminate.
 Qed.
 
 Lemma LxM_send c f : P c -> LxM (send c f).
 Proof.
   intros Hc s. unfold wp, send. eapply Lx_cons; [reflexivity|].
-  intros c' f' b H. inversion H; subst. exact Hc.
+  intros c' f' b tx H. inversion H; subst. exact Hc.
 Qed.
 
 Lemma LxM_get_conn c : LxM (get_conn c).
@@ -309,19 +309,19 @@ Qed.
 
 (** * Auxiliary: frames of a log *)
 
-Lemma frames_of_In c f l : In (c, f) (frames_of l) -> exists b, In (LFrame c f b) l.
+Lemma frames_of_In c f l : In (c, f) (frames_of l) -> exists b tx, In (LFrame c f b tx) l.
 Proof.
   induction l as [|e l IH]; cbn [frames_of]; [intros []|].
-  destruct e as [d|u|c1 f1 b1].
-  - intros H. destruct (IH H) as [b Hb]. exists b. right. exact Hb.
-  - intros H. destruct (IH H) as [b Hb]. exists b. right. exact Hb.
+  destruct e as [d|u|c1 f1 b1 t1].
+  - intros H. destruct (IH H) as [b [tx Hb]]. exists b, tx. right. exact Hb.
+  - intros H. destruct (IH H) as [b [tx Hb]]. exists b, tx. right. exact Hb.
   - intros [H|H].
-    + inversion H; subst. exists b1. left. reflexivity.
-    + destruct (IH H) as [b Hb]. exists b. right. exact Hb.
+    + inversion H; subst. exists b1, t1. left. reflexivity.
+    + destruct (IH H) as [b [tx Hb]]. exists b, tx. right. exact Hb.
 Qed.
 
-Lemma frames_of_rev_snoc l c f b :
-  frames_of (rev (l ++ [LFrame c f b])) = (c, f) :: frames_of (rev l).
+Lemma frames_of_rev_snoc l c f b tx :
+  frames_of (rev (l ++ [LFrame c f b tx])) = (c, f) :: frames_of (rev l).
 Proof. rewrite rev_app_distr. reflexivity. Qed.
 
 Section WithConfig.
@@ -475,9 +475,9 @@ Proof using cfg Hexp.
   destruct (lookup_conn c (conns s)) as [cs|] eqn:Hlk; [clear Hc|discriminate].
   rewrite (step_cmd cfg s c msg o t cs Hlk Ht).
   pose proof (LxM_dispatch_any cfg c t msg o
-                (set_log s [LFrame c (FAck (m_id msg)) (is_clean s)])) as W.
+                (set_log s [LFrame c (FAck (m_id msg)) (is_clean s) (now s)])) as W.
   unfold wp in W.
-  destruct (dispatch cfg c t msg o (set_log s [LFrame c (FAck (m_id msg)) (is_clean s)]))
+  destruct (dispatch cfg c t msg o (set_log s [LFrame c (FAck (m_id msg)) (is_clean s) (now s)]))
     as [u s'|e s']; destruct W as [l [El _]]; cbn [log set_log] in El.
   - cbn [snd o_log]. rewrite El. eexists. apply frames_of_rev_snoc.
   - destruct (NpFactsA.drop_conn_frame c s') as [_ [_ Dl]].
@@ -497,11 +497,11 @@ Proof using cfg Hexp.
   destruct (on_message cfg c msg o (set_log s [])) as [u s1|e s1];
     destruct W as [l [El Hl']]; cbn [log set_log] in El; rewrite app_nil_r in El;
     cbn [snd o_log].
-  - rewrite El. intros Hin. apply frames_of_In in Hin. destruct Hin as [b Hb].
-    apply in_rev in Hb. exact (Hl' c' f b Hb).
+  - rewrite El. intros Hin. apply frames_of_In in Hin. destruct Hin as [b [tx Hb]].
+    apply in_rev in Hb. exact (Hl' c' f b tx Hb).
   - destruct (NpFactsA.drop_conn_frame c s1) as [_ [_ Dl]]. rewrite Dl, El.
-    intros Hin. apply frames_of_In in Hin. destruct Hin as [b Hb].
-    apply in_rev in Hb. exact (Hl' c' f b Hb).
+    intros Hin. apply frames_of_In in Hin. destruct Hin as [b [tx Hb]].
+    apply in_rev in Hb. exact (Hl' c' f b tx Hb).
 Qed.
 
 End WithConfig.
